@@ -1,5 +1,5 @@
 (** Reflection lemmas for the executable instance ([wf_b] decides [WF], [disciplined_b] decides
-    [Disciplined]) and the concrete witnesses (toy graphs, finding F1). *)
+    [Disciplined]) and the concrete witnesses (toy graphs, the history of the former finding F1). *)
 From Coq Require Import List Arith Bool ZArith Lia.
 From Leaspy Require Import State.StateModel State.StateProofs State.StateExec.
 Import ListNotations.
@@ -95,7 +95,7 @@ Qed.
 
 (** ** concrete graphs *)
 
-(** finding F1:  c = a + b *)
+(** the graph and the history of the former finding F1:  c = a + b *)
 Definition f1_nodes : list nspec :=
   [ mkN false true None false [] [] [2] NLog2;
     mkN false true None false [] [] [2] NLog2;
@@ -152,32 +152,19 @@ Definition fresh_of (g : graph xval) (sm : sem xval (list bool) nat) (fx : bool)
   | None => None
   end.
 
-(** Finding F1 on the faithful model ([fx = false]), discipline without the extra clause ([chk = false]):
-    the read returns 11, the from-scratch value of the current independent values (a = 1, b = 20) is 21. *)
-Theorem fork_mode_switch_refuted :
-  exists (g : graph xval) (ops : list xop) (k i : nat),
-    WF g /\ F_mix g xsem /\ Disciplined g xsem false false (init_store g) ops /\
-    read_of g xsem false ops k i = Ok (XS (AFin 11)) /\
-    fresh_of g xsem false ops k i = Some (Some (XS (AFin 21))).
-Proof.
-  exists (mk_graph f1_nodes), f1_ops, 0, 2. split; [exact f1_wf|]. split.
-  - apply F_mix_no_axis. intros k Hk. cbn in Hk. do 3 (destruct k as [|k]; [reflexivity|]). lia.
-  - split; [apply disciplined_b_sound; vm_compute; reflexivity|]. split; vm_compute; reflexivity.
-Qed.
-
-(** the same history on the repaired model: the revert is refused (nothing to revert) and the read is fresh *)
+(** the history of the former finding F1 on the model of the code as it is ([fx = true], see StateNow.v): the revert is
+    refused (nothing to revert) and the read is fresh.  (On the variant [fx = false] — the code before 27ac519 — the same
+    history reads 11 where the current independent values give 21; that witness is recorded in known_findings.jsonl and
+    docs/C01.md and is what the harness replays on a tree that has lost the repair.) *)
 Example f1_repaired :
   read_of (mk_graph f1_nodes) xsem true f1_ops 0 2 = Ok (XS (AFin 22)) /\
   fresh_of (mk_graph f1_nodes) xsem true f1_ops 0 2 = Some (Some (XS (AFin 22))) /\
   disciplined_b (mk_graph f1_nodes) xsem true false (init_store (mk_graph f1_nodes)) f1_ops = true.
 Proof. vm_compute. repeat split. Qed.
 
-(** the history of F1 is excluded by the extra clause, and only by it *)
-Example f1_not_disciplined : disciplined_b (mk_graph f1_nodes) xsem false true (init_store (mk_graph f1_nodes)) f1_ops = false.
-Proof. vm_compute. reflexivity. Qed.
-
-(** non-vacuity of the hypotheses of the partial theorem: a 12-operation history with forked assignments,
-    reads, a full and a partial revert, a clone and a mode switch that is disciplined in the strict sense *)
+(** non-vacuity of the hypotheses of the general theorems of StateProofs.v at [fx = false], [chk = true] (the variant
+    with the extra clause): a 14-operation history with forked assignments, reads, a full and a partial revert, a clone
+    and a mode switch that is disciplined in the strict sense *)
 Definition demo_ops : list xop :=
   [ SetMode 0 (Some REF); Set_ 0 0 (Some (XP [AFin 1; AFin 2])); Get 0 3;
     Put 0 0 None (XP [AFin 5; AFin (-1)]) true; Get 0 1; Get 0 2; RevertMask 0 [true; false]; Get 0 3;
